@@ -16,6 +16,7 @@ import (
 	"archive/zip"
 	"bufio"
 	"bytes"
+	"context"
 	"crypto/sha1"
 	"encoding/hex"
 	"encoding/json"
@@ -31,6 +32,7 @@ import (
 	"strings"
 	"sync"
 	"syscall"
+	"time"
 
 	"github.com/zerx-lab/wordZero/pkg/document"
 	"github.com/zerx-lab/wordZero/pkg/markdown"
@@ -554,7 +556,9 @@ func sioUnprivileged(c Case) []Ev {
 	if err != nil {
 		return nil
 	}
-	cmd := exec.Command(self, "saveiochild", cf, of)
+	cctx, cancel := context.WithTimeout(context.Background(), 3*time.Minute)
+	defer cancel()
+	cmd := exec.CommandContext(cctx, self, "saveiochild", cf, of)
 	cmd.Dir = dir
 	cmd.Env = append(os.Environ(), "TMPDIR=/tmp", "HOME="+dir)
 	cmd.SysProcAttr = &syscall.SysProcAttr{Credential: &syscall.Credential{Uid: nobody, Gid: nobody}}
